@@ -277,6 +277,8 @@ def two_command_paths():
                                                               P("A"), P("B"), Q]))
             out.append(("two-stale-late-%s-%d%d" % (tag, ra, rb), [B("A", ca, ra), B("B", cb, rb), S("A"), P("A"), {"a": "Tick", "d": 601}, S("B"),
                                                                    P("A"), P("B"), I("B", 0), P("B"), Q]))
+        # the first command keeps waiting for its replacement while the second one runs (and, in the variants, fails)
+        out.append(("two-waiting-" + tag, [B("A", ca, 1), S("A"), P("A"), B("B", cb, 1), S("B"), P("B"), Q, I("B", 0), P("B"), Q]))
         # the second command is computed after the first one ended (failed / succeeded / was lost in a restart)
         out.append(("two-after-fail-" + tag, [B("A", ca, 1), S("A"), {"a": "ReplVanish", "cmd": "A", "i": 0}, P("A"), B("B", cb, 1), S("B"), I("B", 0),
                                               P("B"), Q]))
